@@ -511,3 +511,7 @@ package stdlibspec
 //@   ensures result0 != nil
 //@ extern cmp.Or
 //@   pure
+//@ extern maps.Clone(m)
+//@   pure
+//@   ensures m == nil ==> result == nil
+//@   ensures m != nil ==> result != nil && fresh(result) && hasArr(result) == hasArr(m) && valArr(result) == valArr(m)
